@@ -1,5 +1,6 @@
 import JadeModel.Proofs.Batch
 import JadeModel.Proofs.BatchBlocked
+import JadeModel.Proofs.BatchBlockedFull
 import JadeModel.Model.Cluster
 
 /-!
@@ -131,6 +132,12 @@ theorem C07_round_feeds_status_update_partial (hnd : (cands.map (·.id)).Nodup) 
   obtain ⟨c, hc, hid⟩ := List.mem_map.1 hmem
   rw [hsub, ← hid]
   exact C07_blocked_not_submitted_partial p depth dryRun out cands env hnd htb c hc
+
+/-- `_make_batch` under ANY batching mode: a job reported as blocked has blockers, and either was looked at for good (index
+    at or below the cursor) or has all its blockers in the batch just made (the roll-back case) — first step of the full
+    statement, see DESIGN 0.9 -/
+theorem C07_blocked_looked_at_or_doomed : type_of% @Jade.Batch.makeBatch_blocked_looked_at_or_doomed :=
+  @Jade.Batch.makeBatch_blocked_looked_at_or_doomed
 
 theorem C07_rollback_hands_blocked_job_on : type_of% @Jade.Batch.rollback_hands_blocked_job_on :=
   @Jade.Batch.rollback_hands_blocked_job_on
